@@ -85,6 +85,7 @@ def gen(rng, tier, index):
     spec["how"] = gens.pick(rng, forms.CONFIGURE)
     spec["xform"] = gens.pick(rng, forms.PRESENT)
     spec["yform"] = gens.pick(rng, forms.PRESENT)
+    spec["carry"] = gens.pick(rng, forms.CARRY)
     return {"spec": spec, "X": X, "y": y, "kind": kind, "unit": unit, "warm_at": warm_at, "decoy": decoy}
 
 
@@ -98,6 +99,11 @@ def _run_one(spec, X, y, j, label, warm_at=None, decoy=None):
         n_final = est.n_to_select
         est.n_to_select = warm_at
         j.lib("fit" + label, sel.fit, est, X, y, spec)
+        how = spec.get("carry", "same")
+        if how != "same":  # the warm start continues on a deep copy / an unpickled copy of the fitted object
+            tr.detach()
+            est = j.lib("carry", forms.carry, est, how, j)
+            tr.attach(est)
         est.n_to_select = n_final
         j.lib("fit:warm" + label, sel.fit, est, X, y, spec, warm=True)
         j.note("warm_started_fits")
